@@ -441,8 +441,9 @@ def shrink_candidates(case):
 
     for mps in shrink_list(case["mps"], 1):
         yield dict(case, mps=mps)
-    for ops in shrink_list(case["ops"], 0):
-        yield dict(case, ops=ops)
+    n = case["n"]  # the first layer (one gate per wire, in order) fixes the wire layout and stays
+    for ops in shrink_list(case["ops"][n:], 0):
+        yield dict(case, ops=case["ops"][:n] + ops)
     if isinstance(case["shots"], list):
         yield dict(case, shots=case["shots"][0])
         yield dict(case, shots=case["shots"][:2])
